@@ -219,7 +219,9 @@ impl Ctx {
             "what": what,
             "case": replay,
         });
-        let _ = std::fs::write(&path, serde_json::to_string_pretty(&body).unwrap());
+        if self.replay.is_none() {
+            let _ = std::fs::write(&path, serde_json::to_string_pretty(&body).unwrap());
+        }
         g.violations
             .insert(signature.to_string(), (1, path, what.to_string()));
         false
@@ -377,11 +379,10 @@ impl Watchdog {
 static WD_EPOCH: std::sync::OnceLock<Instant> = std::sync::OnceLock::new();
 
 /// Collects a bounded number of samples and a set of distinct keys.
-#[derive(Default)]
 pub struct Stats {
     pub evaluations: AtomicU64,
     pub nontrivial: AtomicU64,
-    distinct: Mutex<BTreeSet<u64>>,
+    distinct: Vec<Mutex<std::collections::HashSet<u64>>>,
     samples: Mutex<Vec<Value>>,
     pub counters: Mutex<BTreeMap<String, u64>>,
 }
@@ -397,23 +398,29 @@ pub fn fnv(bytes: &[u8]) -> u64 {
 
 impl Stats {
     pub fn new() -> Stats {
-        Stats::default()
+        Stats {
+            evaluations: AtomicU64::new(0),
+            nontrivial: AtomicU64::new(0),
+            distinct: (0..256).map(|_| Mutex::new(Default::default())).collect(),
+            samples: Mutex::new(Vec::new()),
+            counters: Mutex::new(BTreeMap::new()),
+        }
     }
     pub fn eval(&self) {
         self.evaluations.fetch_add(1, Ordering::Relaxed);
     }
     /// Record a distinct non-trivial case by a hash key of its content.
     pub fn distinct(&self, key: u64) {
-        self.distinct.lock().unwrap().insert(key);
+        let shard = (key.wrapping_mul(0x9E3779B97F4A7C15) >> 56) as usize;
+        self.distinct[shard].lock().unwrap().insert(key);
     }
     pub fn distinct_many(&self, keys: impl IntoIterator<Item = u64>) {
-        let mut g = self.distinct.lock().unwrap();
         for k in keys {
-            g.insert(k);
+            self.distinct(k);
         }
     }
     pub fn distinct_count(&self) -> u64 {
-        self.distinct.lock().unwrap().len() as u64
+        self.distinct.iter().map(|s| s.lock().unwrap().len() as u64).sum()
     }
     pub fn sample(&self, max: usize, v: impl FnOnce() -> Value) {
         let mut g = self.samples.lock().unwrap();
